@@ -707,6 +707,10 @@ class GridInterp:
             elif isinstance(bidx, ElemI):
                 if bidx.shift != 0:
                     self.err(e, "neighbouring element")
+                if cur.batch == "marker" and not ptw.LENIENT[0]:
+                    # index spaces: a per-marker array has one entry per marker; entry i of it belongs to whichever element owns
+                    # marker i, not to element i
+                    raise FrameError("per-marker array %s subscripted with the element index" % ast.unparse(e.value))
                 v = cur.copy()
             elif isinstance(bidx, tuple) and bidx[0] == "end":
                 v = A(cur.lead, {k: rename_prefix(x, "e:", "eEnd%s:" % bidx[1]) for k, x in cur.comps.items()}, None, cur.frame)
